@@ -242,6 +242,7 @@ class Runner:
         op_calls = env.backend_calls - b0
         env.budget = None
         core = self.core
+        pb = core.playback
         tlts = core.tracklist.get_tl_tracks()
         v1 = core.tracklist.get_version()
         if op[0] == "load":
@@ -266,7 +267,10 @@ class Runner:
                   -1 if env.mixer_mute is None else int(env.mixer_mute),
                   core.history.get_length(), len(a.queue),
                   -1 if a.uri is None else env.index_of_uri(a.uri), core_env.PS_CODE[a.state],
-                  op_calls])
+                  op_calls] + [SEP]
+               + [x.tlid for x in core.tracklist._shuffled] + [SEP]
+               + [_oz(pb._pending_position), _oz(pb._last_position), int(bool(pb._previous)),
+                  int(bool(pb._start_paused)), _oz(pb._start_at_position)])
         self.trace.append({
             "op": op, "ret": ret, "exc": exc_name, "diverged": diverged, "backend_calls": op_calls,
             "tl": [(t.tlid, env.index_of_uri(t.track.uri)) for t in tlts], "version": v1,
@@ -314,6 +318,10 @@ def g_optz(x):
 def g_crit(tlids, uris):
     return (f"(mkCrit {g_opt(tlids, lambda l: g_list([g_z(x) for x in l]))} "
             f"{g_opt(uris, lambda l: g_list([g_z(x) for x in l]))})")
+
+
+def _oz(v):
+    return -1 if v is None else int(v)
 
 
 def g_op(op):
